@@ -26,35 +26,49 @@ def _rel(e, o):
     return "same-length"
 
 
-def _resolve_label_names(E, O, prefix_ok=True):
-    """Temp labels of patches are named <name>_<suffix> by the library; map expected name ->
-    observed name when exactly one observed symbol matches."""
+def _resolve_label_names(E, O):
+    """Temp labels of a patch invocation (expected name '<.Lname>@<mod id>') are named
+    <.Lname>_<suffix> by the library.  Which suffix is not this oracle's business (C13):
+    expected temp labels are matched to observed ones by position, one to one."""
     m = {}
+    groups = {}
     for n in E.labels:
-        if n in O.labels:
+        if "@" in n:
+            groups.setdefault(n.split("@")[0], []).append(n)
+        elif n in O.labels:
             m[n] = n
-        elif n.startswith(".L"):
-            c = [x for x in O.labels if re.fullmatch(re.escape(n) + r"_\d+", x)]
-            if len(c) == 1:
-                m[n] = c[0]
+    for base, names in groups.items():
+        cands = sorted(x for x in O.labels if re.fullmatch(re.escape(base) + r"_\d+", x))
+        used = set()
+        for n in sorted(names):
+            for c in cands:
+                if c not in used and O.labels[c] == E.labels[n]:
+                    m[n] = c
+                    used.add(c)
+                    break
+        rest = [c for c in cands if c not in used]
+        for n in sorted(names):
+            if n not in m and rest:
+                m[n] = rest.pop(0)
     return m
 
 
-def label_diffs(E, O, names=None):
+def label_diffs(E, O, names=None, roles=None):
     out = []
     nm = _resolve_label_names(E, O)
     for n, ev in sorted(E.labels.items(), key=str):
         if names is not None and n not in names:
             continue
+        r = (roles or {}).get(n.split("@")[0] if "@" in n else n, {})
         if n not in nm:
-            out.append(D("label-missing", label=n))
+            out.append(D("label-missing", label=n, **r))
             continue
         ov = O.labels[nm[n]]
         if ev == "proxy":
             if ov != "proxy":
-                out.append(D("label-not-on-proxy", label=n, observed=ov))
+                out.append(D("label-not-on-proxy", label=n, observed=ov, **r))
         elif ov != ev:
-            out.append(D("label-position", label=n, expected=ev, observed=ov, r_obs=ov if isinstance(ov, str) else "position"))
+            out.append(D("label-position", label=n, expected=ev, observed=ov, r_obs=ov if isinstance(ov, str) else "position", **r))
     return out
 
 
@@ -64,7 +78,7 @@ def _norm_t(t):
     return t
 
 
-def edge_diffs(E, O):
+def edge_diffs(E, O, spec=None):
     """E.edges authoritative except fallthroughs of instructions in E.optional_ft."""
     out = list()
     zero = set(getattr(O, "zero_blocks", ()))
@@ -78,11 +92,203 @@ def edge_diffs(E, O):
     extra = oo - ee
     for x in sorted(missing, key=str):
         src = E.insns.get(x[0])
-        out.append(D("edge-missing", edge=_fmt(x), r_type=x[1], r_src=_role(src), r_tgt="proxy" if x[4] == "proxy" else "code"))
+        out.append(D("edge-missing", edge=_fmt(x), r_type=x[1], r_src=_role(src), r_tgt="proxy" if x[4] == "proxy" else "code", r_cause=_cause(E, x, spec), gap=gap_after(E, x[0])))
     for x in sorted(extra, key=str):
         src = E.insns.get(x[0])
-        out.append(D("edge-extra", edge=_fmt(x), r_type=x[1], r_src=_role(src), r_tgt="proxy" if x[4] == "proxy" else ("removed" if x[4] == "removed" else "code")))
+        out.append(D("edge-extra", edge=_fmt(x), r_type=x[1], r_src=_role(src), r_tgt="proxy" if x[4] == "proxy" else ("removed" if x[4] == "removed" else "code"), r_cause=_cause(E, x, spec), gap=gap_after(E, x[0])))
     return out
+
+
+def gap_after(E, key):
+    """What lies between instruction `key` and the next surviving instruction of the edited
+    listing - only used to describe a discrepancy (known-findings signatures)."""
+    toks = getattr(E, "tokens", None)
+    rec = E.insns.get(key)
+    if toks is None or rec is None or "tok" not in rec:
+        return "?"
+    tl = toks[key[0]]
+    i = rec["tok"]
+    src = tl[i]
+    flags = set()
+    if src["uid"][0] == "patch" and src.get("slot_end") and src.get("blk_noft"):
+        flags.add("E")  # patch appended to a block whose last instruction cannot fall through
+    nxt = None
+    for t in tl[i + 1:]:
+        if t["t"] == "blk":
+            flags.add("B")
+        elif t["t"] == "ins":
+            if t.get("dead"):
+                if t["bk"] == "d":
+                    flags.add("D")
+                elif t["ins"][0] in ("jmp", "ret", "ijmp"):
+                    flags.add("T")
+                else:
+                    flags.add("C")
+                if t["dead"] == "proxy":
+                    flags.add("X")
+            else:
+                nxt = t
+                break
+    if nxt is None:
+        flags.add("Z")
+    else:
+        if src["uid"][0] == "patch" and nxt["uid"][0] != "patch":
+            flags.add("P")
+        if src["uid"][0] != "patch" and nxt["uid"][0] == "patch":
+            flags.add("p")
+        if src["uid"][0] == "patch" and nxt["uid"][0] == "patch" and src["uid"][1] != nxt["uid"][1]:
+            flags.add("Q")  # two different patches meet
+    return "".join(sorted(flags))
+
+
+def ft_cause(E, key, spec):
+    """Why might the library have no fallthrough edge out of instruction `key`?  Only used to
+    describe a discrepancy (known-findings signatures), never by the oracle.
+      K1  the instruction ends up as the last one of (what is left of) an input block that had
+          no fallthrough edge - the library keeps a block's fallthrough status, it never derives
+          one from the instruction (F13/F24/F25)
+      K2  the block fell through into a block that was deleted with retarget_to_proxy (F14)"""
+    toks = getattr(E, "tokens", None)
+    rec = E.insns.get(key)
+    if toks is None or rec is None or "tok" not in rec or spec is None:
+        return "unexplained"
+    tl = toks[key[0]]
+    i = rec["tok"]
+    src = tl[i]
+    B = src["uid"][1] if src["uid"][0] == "orig" else src.get("slot_blk")
+    if B is None:
+        return "unexplained"
+    blocks = None
+    for sct in spec["sections"]:
+        names = [b["n"] for b in sct["blocks"]]
+        if B in names:
+            blocks = sct["blocks"]
+            bi = names.index(B)
+    if blocks is None:
+        return "unexplained"
+    for t in tl[i + 1:]:
+        if t["t"] == "ins" and not t.get("dead") and t["uid"][0] == "orig" and t["uid"][1] == B:
+            return "unexplained"  # an original instruction of the same block still follows
+        if t["t"] == "ins" and not t.get("dead") and t["uid"][0] == "patch" and t.get("slot_blk") == B:
+            continue
+    b = blocks[bi]
+    nxt = blocks[bi + 1] if bi + 1 < len(blocks) else None
+    import vf.world.isa as isamod
+
+    isa_ = isamod.TARGETS[spec["target"]][0]
+    had_ft = b["k"] == "c" and b["i"] and isa_.falls(tuple(b["i"][-1])) and nxt is not None and nxt["k"] == "c"
+    if not had_ft:
+        return "K1"
+    dead = [t for t in tl if t["t"] == "ins" and t["uid"][0] == "orig" and t["uid"][1] == nxt["n"]]
+    if dead and all(t.get("dead") == "proxy" for t in dead):
+        return "K2"
+    return "unexplained"
+
+
+def ret_causes(E, spec):
+    """Request patterns under which the library is known not to keep return edges in step with
+    the calls (DESIGN.md section 5: F15/F16/F19/F26..F29).  Computed from the request (spec +
+    modification list as reflected in the token list), never from the outcome.
+      RA  a surviving direct call targets a label whose block was wholly deleted without proxy
+          (label and call edge slide onto another block, possibly of another function)
+      RB  a patch contains a direct call whose target lies in the function it is inserted into
+      RK  the block after a block ending in a call was deleted with retarget_to_proxy
+      RC  a block of a function was deleted with retarget_to_proxy while other code of that
+          function survives
+      RD  every original return of a function was deleted or the function got a return from a patch
+          while blocks of it were deleted in the same apply
+      RE  a patch ending in (or consisting of) a call is appended at the end of a block"""
+    toks = getattr(E, "tokens", None)
+    if toks is None or spec is None:
+        return ["unexplained"]
+    out = set()
+    owner, func_of_blk = {}, {}
+    for sct in spec["sections"]:
+        for b in sct["blocks"]:
+            func_of_blk[b["n"]] = b.get("f") if b["k"] == "c" and spec.get("functions", True) else None
+    for tl in toks.values():
+        for t in tl:
+            if t["t"] == "lab" and isinstance(t["own"], str):
+                owner[t["n"]] = t["own"]
+    per = {}
+    order = []
+    for tl in toks.values():
+        for t in tl:
+            if t["t"] == "blk":
+                order.append(t["b"])
+            if t["t"] == "ins" and t["uid"][0] == "orig":
+                per.setdefault(t["uid"][1], []).append(t.get("dead") or "")
+    dead_np = {b for b, v in per.items() if all(x for x in v) and "proxy" not in v}
+    dead_px = {b for b, v in per.items() if v and all(x == "proxy" for x in v)}
+    any_dead = {b for b, v in per.items() if any(v)}
+    live_funcs = {}
+    for tl in toks.values():
+        for t in tl:
+            if t["t"] == "ins" and not t.get("dead") and t.get("f"):
+                live_funcs.setdefault(t["f"], 0)
+                live_funcs[t["f"]] += 1
+    for tl in toks.values():
+        for idx, t in enumerate(tl):
+            if t["t"] != "ins" or t.get("dead"):
+                continue
+            if t["ins"][0] == "call":
+                tgt_owner = owner.get(t["ins"][1])
+                if tgt_owner in dead_np:
+                    out.add("RA")
+                if t["uid"][0] == "patch" and tgt_owner is not None and func_of_blk.get(tgt_owner) is not None and func_of_blk.get(tgt_owner) == t.get("f"):
+                    out.add("RB")
+                if t["uid"][0] == "patch" and t.get("slot_end"):
+                    out.add("RE")
+            if t["ins"][0] == "ret" and t["uid"][0] == "patch" and t.get("f"):
+                if any(func_of_blk.get(b) == t["f"] for b in any_dead):
+                    out.add("RD")
+    for b in dead_px:
+        f = func_of_blk.get(b)
+        if f and live_funcs.get(f):
+            out.add("RC")
+        i = order.index(b)
+        if i > 0:
+            prev = order[i - 1]
+            # last live instruction physically before the deleted block
+            for tl in toks.values():
+                last = None
+                for t in tl:
+                    if t["t"] == "blk" and t["b"] == b:
+                        if last is not None and last["ins"][0] in ("call", "icall"):
+                            out.add("RK")
+                        break
+                    if t["t"] == "ins" and not t.get("dead"):
+                        last = t
+    for f in {v for v in func_of_blk.values() if v}:
+        rets = [t for tl in toks.values() for t in tl if t["t"] == "ins" and t["uid"][0] == "orig" and t.get("f") == f and t["ins"][0] == "ret"]
+        if rets and all(t.get("dead") for t in rets) and live_funcs.get(f):
+            out.add("RD")
+    # RF: a call to function F is deleted/replaced while a patch adds a call to F
+    dead_call_funcs = set()
+    patch_call_funcs = set()
+    for tl in toks.values():
+        for t in tl:
+            if t["t"] == "ins" and t["ins"][0] == "call":
+                f = func_of_blk.get(owner.get(t["ins"][1]))
+                if f and t.get("dead"):
+                    dead_call_funcs.add(f)
+                if f and not t.get("dead") and t["uid"][0] == "patch":
+                    patch_call_funcs.add(f)
+    if dead_call_funcs & patch_call_funcs:
+        out.add("RF")
+    # RG: a call that ends a block without fallthrough edge is now followed by code (K1 for calls)
+    for (src, typ, _c, _d, _t) in E.edges:
+        if typ == "Fallthrough" and E.insns[src]["ins"][0] in ("call", "icall") and ft_cause(E, src, spec) == "K1":
+            out.add("RG")
+    return sorted(out) or ["unexplained"]
+
+
+def _cause(E, x, spec):
+    if x[1] == "Fallthrough":
+        return ft_cause(E, x[0], spec)
+    if not hasattr(E, "_ret_causes"):
+        E._ret_causes = ret_causes(E, spec)
+    return "+".join(E._ret_causes)
 
 
 def _role(rec):
